@@ -20,9 +20,9 @@ const vhC26MaxQ = 1 << 36
 // every comparison between seconds is decided by the term layer and the solver is left
 // with the arithmetic on counts and the threshold.
 //
-//verif:harness prop=C26 bounds="W in 1..4 (quick) / 1..8 (thorough); base second qB*W with qB symbolic in 1..2^36 or 0; lastNow residue, presence of each bucket and now-lastNow in 0..2W+1 enumerated; threshold and per-bucket counts (1..2^20) symbolic; one Trigger from an arbitrary invariant state"
+//verif:harness prop=C26 timeout=2400 bounds="W in 1..4 (quick) / 1..6 (thorough); base second qB*W with qB symbolic in 1..2^36 or 0; lastNow residue, presence of each bucket and now-lastNow in 0..2W+1 enumerated; threshold and per-bucket counts (1..2^20) symbolic; one Trigger from an arbitrary invariant state"
 func Harness_C26_TriggerStep() {
-	W := vs.IntRange("W", 1, vs.Pick(4, 8))
+	W := vs.IntRange("W", 1, vs.Pick(4, 6))
 	W64 := int64(W)
 	thr := int64(vs.SymRange("thr", 1, 1<<20))
 	sw := NewSlidingWindow(W64, thr)
